@@ -57,7 +57,7 @@ def run(sid, tier="quick", checks=None, seed=None):
     return res
 
 
-def importer(pid):
+def importer(pid, tag=""):
     """Copy an agent's out/ directory (/tmp/mut-<pid>/out) into seeded/<pid>-m<k>/."""
     src = "/tmp/mut-%s/out" % pid
     done = []
@@ -66,7 +66,7 @@ def importer(pid):
         mf = os.path.join(src, "meta%d.json" % k)
         if not (os.path.exists(pf) and os.path.exists(mf)):
             continue
-        d = os.path.join(ROOT, "seeded", "%s-m%d" % (pid, k))
+        d = os.path.join(ROOT, "seeded", "%s-%sm%d" % (pid, tag, k))
         os.makedirs(d, exist_ok=True)
         shutil.copy(pf, os.path.join(d, "patch.diff"))
         meta = json.load(open(mf))
@@ -77,7 +77,7 @@ def importer(pid):
             shutil.copy(os.path.join(src, f), os.path.join(d, f))
         meta["demo_files"] = demos
         json.dump(meta, open(os.path.join(d, "meta.json"), "w"), indent=1)
-        done.append("%s-m%d" % (pid, k))
+        done.append("%s-%sm%d" % (pid, tag, k))
     return done
 
 
@@ -98,7 +98,12 @@ def confirm(sid):
         cmd = meta.get("demo_cmd", "")
         def demo():
             r = subprocess.run(["bash", "-c", cmd], cwd=wt, env=env, capture_output=True, text=True, timeout=900)
-            return r.returncode, (r.stdout + r.stderr)[-1500:]
+            out = r.stdout + r.stderr
+            rc = r.returncode
+            # commands that end with a clean-up step hide go test's exit status
+            if rc == 0 and ("--- FAIL" in out or "\nFAIL" in out or "panic:" in out):
+                rc = 1
+            return rc, out[-1500:]
         out["clean_rc"], out["clean_tail"] = demo()
         r = sh(["git", "-C", wt, "apply", os.path.join(d, "patch.diff")])
         if r.returncode:
@@ -131,7 +136,7 @@ def main():
     a = sys.argv[1:]
     if not a:
         print(__doc__); return 2
-    opt = {"--tier": "quick", "--checks": None, "--seed": None, "--jobs": "2"}
+    opt = {"--tier": "quick", "--checks": None, "--seed": None, "--jobs": "2", "--tag": ""}
     pos = []
     i = 0
     while i < len(a):
@@ -145,7 +150,7 @@ def main():
         print(json.dumps(r, indent=1))
         return 0
     if pos[0] == "import":
-        for sid in importer(pos[1]):
+        for sid in importer(pos[1], opt["--tag"]):
             c = confirm(sid)
             print(sid, "confirmed" if c.get("confirmed") else "NOT CONFIRMED", {k: c.get(k) for k in ("clean_rc", "mutated_rc", "own_tests_rc", "error")})
             if not c.get("confirmed"):
